@@ -487,7 +487,8 @@ def _check(prop, cfg, tier, seed, scratch, t0):
                 if mine:
                     # the properties this clause speaks for: its tags, or -- untagged -- all the
                     # properties the function serves
-                    shared = sorted(set(f.get("tags") or it.get("props") or [prop]) & set(CFG.PROPS))
+                    unit_props = [q for q, c in CFG.PROPS.items() if an["unit"] in c.get("units", [])]
+                    shared = sorted(set(f.get("tags") or it.get("props") or unit_props or [prop]) & set(CFG.PROPS))
                     violations.append({"obligation": "%s: %s" % (label, f["msg"]), "unit": an["unit"], "verifier_output": f["text"], "speaks_for": shared})
                 else:
                     other_failures.append("%s: %s [%s]" % (label, f["msg"], ",".join(f.get("tags") or it.get("props") or [])))
